@@ -20,7 +20,8 @@ CHECKS = {
         text="TLC checks the progress bound, termination under weak fairness, completeness and outcome of the propagation "
              "loop for every iteration order of the neighbour/coincident sets, insertion order and numbering in the bounded "
              "model; the same configurations are replayed into the code under forced schedules with a step budget, files "
-             "compared across schedules; random assemblies judged by TLC.",
+             "compared across schedules; a four-block chain fed from one end is checked and replayed in every insertion "
+             "order; random assemblies judged by TLC.",
         note="Schedule control replaces Axis.neighbours / Wire.coincidents by a set subclass with a chosen iteration order "
              "(no source hook). Set iteration of the int worklist is over-approximated in the model.",
         technique="TLA+ spec Grading.tla: safety + liveness (WF) by TLC; schedule-forcing replay of spec configurations; "
@@ -41,11 +42,14 @@ CHECKS = {
         text="Render.tla states the vertex rules relationally (positions, one vertex per position and slave-patch set, "
              "master/slave separation, dense numbering); random programs of lattice hexahedra with arbitrary corner "
              "numbering, insertion order, patches and merged pairs (incl. several pairs at one point), sub-tolerance "
-             "jitter and 3*TOL twins are executed and TLC judges every recorded (program, parsed file) pair.",
+             "jitter and 3*TOL twins are executed and TLC judges every recorded (program, parsed file) pair. Vertices.tla "
+             "models vertex-list insertion as a state machine (Shared, Distinct, MasterSlave, Dense, OrderFree checked by "
+             "TLC) and every emitted insertion sequence is replayed into Mesh.assemble().",
         note="Trusted: blockMeshDict parser, position->id abstraction (nearest lattice point within 1e-6). Cases the "
              "statement leaves open (different non-empty slave sets at one point; a block carrying master and slave of "
              "one pair) are not generated / not judged.",
-        technique="TLA+ spec Render.tla as trace acceptor (TLC evaluates C05_* clauses on recorded executions)",
+        technique="TLA+ spec Render.tla as trace acceptor (TLC evaluates C05_* clauses on recorded executions); TLA+ spec "
+                  "Vertices.tla model-checked by TLC with exhaustive replay of its insertion sequences",
         ref="DESIGN.md section 4 C05"),
     "C06": dict(
         text="Render.tla defines the expected blockMeshDict sections as relations between the abstract program and the "
@@ -133,8 +137,9 @@ CHECKS = {
     "C17": dict(
         text="Links.tla enumerates exact lattice instances in integer orthogonal frames about shifted origins (feet on a "
              "line/plane, radius and height about an axis, leaders moved by quarter turns with radial/axial displacement, "
-             "translations, mirror images) with exact expected follower positions and TLC checks the quarter-turn and "
-             "mirror identities; every sampled instance is mapped by a random similarity and Line/Plane/Radial/Curve/Free/"
+             "translations, mirror images) as short histories of one link (move, move again, move back, each update "
+             "repeated) with exact expected follower positions, and TLC checks the quarter-turn, mirror and history-"
+             "independence identities; every sampled instance is mapped by a random similarity and Line/Plane/Radial/Curve/Free/"
              "ParametricSurface clamps and Translation/Rotation/Symmetry links are compared with the exact values, "
              "including that update() leaves the leader as assigned.",
         note="Initial clamp positions come from scipy.minimize(tol=1e-7): compared to 1e-3 of the feature size; on-manifold "
@@ -144,7 +149,8 @@ CHECKS = {
         ref="DESIGN.md section 4 C17"),
     "C15": dict(
         text="Smooth.tla defines boundary points (points of a cell side owned by exactly one cell) and edge-neighbours from "
-             "the cells alone, for structured quad/hex grids and unstructured O-grids, and TLC checks valences; the real "
+             "the cells alone, for structured quad/hex grids, unstructured O-grids and unevenly spaced L-shaped quad/hex "
+             "regions (re-entrant corners), and TLC checks valences; the real "
              "SketchSmoother/MeshSmoother is run on each topology (random similarity, jittered interior, fixed sets by index "
              "or position, 1 or 300 sweeps) and TLC judges each recorded run: moved points are free interior points, every "
              "free point ends at its neighbours' average; exact one-sweep average, regular-lattice recovery and copy-back "
@@ -170,7 +176,9 @@ CHECKS = {
              "an observer/ceiling frame alone - the canonical numbering of a hexahedron, which TLC checks to be a rotation for "
              "all 24 frames; the lattice mesh is built under a random similarity and GeometricFinder compared with the exact "
              "sets (plus 0.3/3 x TOL twins with long/short normals), RoundSolidFinder's core/rim sets are compared with "
-             "geometric predicates, and a randomly distorted convex block is re-oriented from the 48 numberings x 24 frames.",
+             "geometric predicates, and a randomly distorted convex block is re-oriented from the 48 numberings x 24 frames "
+             "and from viewpoints in general position (turned line of sight, pulled ceiling point) that Find.tla decides "
+             "by a clear integer margin.",
         note="Round-shape finder sets are decided by harness-side geometric predicates (on the end plane, at the rim radius).",
         technique="TLA+ spec Find.tla/Hex.tla/Lattice.tla: TLC-computed exact query results and canonical numberings; "
                   "replayed into the implementation under similarity conjugation",
